@@ -652,7 +652,7 @@ func netCode(n string) int {
 	return -1
 }
 
-func observe(ctx caddy.Context, c *kase, cfg *caddy.Config, phase2 bool) *obs {
+func observe(ctx caddy.Context, c *kase, cfg *caddy.Config, phase2, keepAlive bool) *obs {
 	o := &obs{servers: map[string]*oserver{}, loadedOK: true}
 	appI, err := ctx.App("http")
 	if err != nil {
@@ -738,10 +738,14 @@ func observe(ctx caddy.Context, c *kase, cfg *caddy.Config, phase2 bool) *obs {
 			o.phase2Err = true
 		}
 		o.managing = tlsApp.VerifManaging()
-		caddy.VerifCancelConfig(cfg)
+		if !keepAlive {
+			caddy.VerifCancelConfig(cfg)
+		}
 		return o
 	}
-	tlsApp.Cleanup()
+	if !keepAlive {
+		tlsApp.Cleanup()
+	}
 	return o
 }
 
@@ -843,7 +847,7 @@ func provision(c *kase, rot int) *obs {
 	if err != nil {
 		return &obs{errClass: classifyErr(err)}
 	}
-	return observe(ctx, c, &cfg, rot == 0)
+	return observe(ctx, c, &cfg, rot == 0, false)
 }
 
 // ---------------------------------------------------------------- canonical line (mirrors Driver.canon)
@@ -1162,6 +1166,9 @@ func (prop) Run(line string) core.Outcome {
 	}
 	if f := strings.Fields(line); len(f) > 0 && f[0] == "cf" {
 		return runCF(line, f)
+	}
+	if f := strings.Fields(line); len(f) > 0 && f[0] == "hist" {
+		return runHist(f)
 	}
 	c, ok := parseCase(strings.Fields(line))
 	if !ok || !c.flagsOK() {
